@@ -201,7 +201,7 @@ def main(argv):
             mod.extract(ctx)
         lean = C.lean_check(pid, thorough=ctx.thorough, own_tables=hasattr(mod, "extract"))
         tie = C.tie_check(pid, thorough=ctx.thorough)
-        lost = {k: v for k, v in tie.items() if v != "proved"}
+        lost = {k: v for k, v in tie.items() if v not in ("proved", "ok")}
         if lost:
             # the regenerated kernel is no longer identified with the model kernel: the correspondence check is then the
             # only tie for it; look harder (thorough-sized generation within this run's budget)
